@@ -30,7 +30,7 @@ def damage(f, rng):
         struct.pack_into("<H", b, dictionary.BASE + offs[1] + 2 * k, rng.randrange(0, nent + 2))
         what = "pointer"
     elif r < 0.8:                           # entry field: sibling / child / offset
-        e, fld = rng.randrange(1, nent), rng.choice([4, 8, 12])
+        e, fld = rng.randrange(1, max(2, nent)), rng.choice([4, 8, 12])
         v = rng.choice([0, 1, 2, 3, 5, lens[1] // 2 - 1, lens[1] // 2, lens[2] - 2, lens[2], lens[3], 2 * lens[3]])
         struct.pack_into("<I", b, dictionary.BASE + offs[4] + 16 * e + fld, max(0, v))
         what = "entry"
@@ -63,8 +63,10 @@ def check(run):
         f, exp = dictionary.build(slots, classes, pages, rng, order)
         valid.append(f)
         cases.append(dic_case(n, f, exp, {"dictionary": {"slots": len(slots), "words": len(exp), "pages": pages, "order": order}})); n += 1
+    import struct
+    rich = [v for v in valid if struct.unpack('<I', v[dictionary.HDR + 36:dictionary.HDR + 40])[0] >= 48] or valid
     for i in range(ndamaged):
-        f, what = damage(rng.choice([v for v in valid if len(v) > dictionary.BASE + 0x260]), rng)
+        f, what = damage(rng.choice(rich), rng)
         cases.append(dic_case(n, f, None, {"damaged dictionary": what})); n += 1
     run.rule = ("random prefix-free tries (depth <= 4, 1..4 children, tails of 1..4 units, BMP units incl. the surrogate borders) laid out "
                 "by gen/dictionary.py with the five blocks in any order, gaps and slack, start tables of 1..4 pages with 0..3 classes; "
